@@ -27,6 +27,12 @@ pub fn init() {
     engine::init();
 }
 
+/// `catch_unwind` for closures over the code under test, whatever its types are (a `Game` that gains interior
+/// mutability must not stop the harness from compiling: the state after a caught panic is never used again).
+pub fn unwind_safe<R>(f: impl FnOnce() -> R) -> std::thread::Result<R> {
+    std::panic::catch_unwind(std::panic::AssertUnwindSafe(f))
+}
+
 /// Text (message and location) of the most recent panic caught in the code under test.
 pub static LAST_PANIC: std::sync::Mutex<String> = std::sync::Mutex::new(String::new());
 
